@@ -781,3 +781,27 @@ func init() {
 		})
 	})
 }
+
+// runReal interprets the real body of an intrinsic's target function.
+func (ex *Exec) runReal(fr *Frame, name string, args []Value) Value {
+	fn := fr.fn
+	if fn.Blocks == nil {
+		ex.unsupported("no code for function %s", fn)
+	}
+	nf := &Frame{ex: ex, th: fr.th, caller: fr.caller, fn: fn, depth: fr.depth, callPos: fr.callPos}
+	ex.res.Funcs[fn] = true
+	nf.env = make(map[ssa.Value]Value, 16)
+	nf.block = fn.Blocks[0]
+	nf.locals = make([]Value, len(fn.Locals))
+	for i, l := range fn.Locals {
+		nf.locals[i] = zero(deref(l.Type()))
+		nf.env[l] = &nf.locals[i]
+	}
+	for i, p := range fn.Params {
+		nf.env[p] = args[i]
+	}
+	for nf.block != nil {
+		ex.runFrame(nf)
+	}
+	return nf.result
+}
